@@ -28,19 +28,15 @@ def isRes (c : Char) : Bool := c.isAlpha
 /-- number of residues of a gapped row -/
 def nres (r : Row) : Nat := r.countP isRes
 
-/-! ## strncmp -/
+/-! ## strcmp -/
 
-/-- `strncmp(a, b, n)` on NUL-free byte strings (only the sign is meaningful).  The end of a
-string is its terminating NUL, i.e. byte 0. -/
-def strncmp : Nat → Name → Name → Int
-  | 0, _, _ => 0
-  | _+1, [], [] => 0
-  | _+1, [], b :: _ => - (b.toNat : Int)
-  | _+1, a :: _, [] => (a.toNat : Int)
-  | n+1, a :: as, b :: bs => if a ≠ b then (a.toNat : Int) - (b.toNat : Int) else strncmp n as bs
-
-/-- `MSA_NAME_LEN` -/
-def msaNameLen : Nat := 256
+/-- `strcmp(a, b)` on NUL-free byte strings (only the sign is meaningful).  The end of a string is
+its terminating NUL, i.e. byte 0; bytes compare as `unsigned char`. -/
+def strcmp : Name → Name → Int
+  | [], [] => 0
+  | [], b :: _ => - (b.toNat : Int)
+  | a :: _, [] => (a.toNat : Int)
+  | a :: as, b :: bs => if a ≠ b then (a.toNat : Int) - (b.toNat : Int) else strcmp as bs
 
 /-- a C string has no NUL byte inside -/
 def NulFree (n : Name) : Prop := ∀ b ∈ n, b ≠ 0
@@ -173,12 +169,12 @@ so the checksum covers the first `nres` characters of the row (gap characters in
 def NRow.chksum (x : NRow) : Nat := gcgFrom 0 0 (x.row.take (nres x.row))
 
 /-- `sort_by_name(a,b) <= 0` (never 0) -/
-def leByName (a b : NRow) : Bool := decide (strncmp msaNameLen a.name b.name < 0)
+def leByName (a b : NRow) : Bool := decide (strcmp a.name b.name < 0)
 
 /-- `sort_by_both` (msa_check.c:247-263) -/
 def cmpBoth (a b : NRow) : Int :=
-  if strncmp msaNameLen a.name b.name < 0 then -1
-  else if strncmp msaNameLen a.name b.name = 0 then (if a.chksum > b.chksum then -1 else 1)
+  if strcmp a.name b.name < 0 then -1
+  else if strcmp a.name b.name = 0 then (if a.chksum > b.chksum then -1 else 1)
   else 1
 
 /-- glibc's `qsort` (merge sort for these sizes) takes the left element iff `cmp(l, r) <= 0` -/
@@ -186,11 +182,11 @@ def leBoth (a b : NRow) : Bool := decide (cmpBoth a b ≤ 0)
 
 /-- the adjacent-duplicate scan of `kalign_check_msa` (msa_check.c:166-200) -/
 def adjDup : List NRow → Bool
-  | a :: b :: rest => decide (strncmp msaNameLen a.name b.name = 0) || adjDup (b :: rest)
+  | a :: b :: rest => decide (strcmp a.name b.name = 0) || adjDup (b :: rest)
   | _ => false
 
 /-- `kalign_check_msa(msa, 1) == OK`: sort by name, fail on the first adjacent pair with equal
-(256-byte prefixes of) names.  (With `exit_on_error = 1` nothing is renamed.) -/
+names (`strcmp == 0`).  (With `exit_on_error = 1` nothing is renamed.) -/
 def checkMsaStrict (A : List NRow) : Bool := !adjDup (A.mergeSort leByName)
 
 /-- `kalign_sort_msa` -/
